@@ -57,7 +57,9 @@ def canonical(pa, pb, N: Optional[int], M: int, until: int, extra_observer: Opti
                      "ins": {"i": "trigger"}, "outs": {}, "beh": {"seed": 3}})
         conns.append({"src": "A", "se": "e0", "sa": "o", "dst": "X", "de": "e0", "da": "i"})
     return {"until": until, "sims": sims, "conns": conns,
-            "config": {"cache": cache, "lazy": lazy, "max_loop_iterations": M}}
+            "config": {"cache": cache, "lazy": lazy, "max_loop_iterations": M,
+                       # every other case sets World.max_loop_iterations after start() instead of in the constructor
+                       "mli_late": bool((M + (N or 0) + len(pa) + int(three)) % 2)}}
 
 
 GUARD_RE = re.compile(r"Simulator (\S+) has performed a sub-step more than (\d+) times")
@@ -312,7 +314,8 @@ def evidence(m, tier, seed):
         "rule": "canonical weak loops (2 or 3 members) with N sub-steps per time, all N in M-2..M+2 and non-settling, "
                 "max_loop_iterations M in 1..6 (thorough: also 8, 12), 5 placements (one group, inner group, nested, "
                 "siblings inside a group, depth 3), with/without an observer in the root / a sibling group / the "
-                "same group, cache/lazy on/off, rotating schedule policies: N<=M => normal return with exactly N "
+                "same group, cache/lazy on/off, bound given to World() or assigned to world.max_loop_iterations after "
+                "start(), rotating schedule policies: N<=M => normal return with exactly N "
                 "sub-steps per time and time advancing; N>M => SimulationError naming a member, exactly M sub-steps "
                 "executed; loops closed over time by a time-shifted hop (one sub-step per time step, more time steps "
                 "than M) must never be interrupted; generated multi-weak/nested scenarios with M in 1..4: envelope only; "
